@@ -26,7 +26,8 @@ def main():
     ref = seeds.grammar_programs("reference", 8 if chk.quick else 20, chk.seed)
     chk.extra["reference_grammar_programs"] = len(ref)
     pycommon.k0_texts(chk, oracles_, ref, "reference-grammar derivations k=0", wall=150 if chk.quick else 900)
-    cp = seeds.concat_product(True, 200 if chk.quick else 3000, chk.rng) + seeds.literal_product()
+    from symx import errseeds
+    cp = seeds.concat_product(True, 200 if chk.quick else 3000, chk.rng) + seeds.literal_product() + errseeds.dedent_after()
     pycommon.k0_texts(chk, oracles_, cp, "string concatenation product k=0", wall=150 if chk.quick else 900)
     ep = seeds.expr_product()
     pycommon.k0_texts(chk, oracles_, ep, "expression kinds x positions k=0", wall=150 if chk.quick else 900)
